@@ -132,11 +132,24 @@ def run_kani_part(tier, only=None):
         out['inconclusive'].append('no result for harnesses %s\n%s' % (missing, text[-3000:]))
     failed = [h for h in hs if h in res and res[h]['status'] == 'FAILED']
     if failed:
-        # second pass for counterexamples, only on failing harnesses
-        res2, dt2, text2 = kani.run_kani(crate, failed, jobs=14, timeout=3600, playback=True)
+        # second pass for counterexamples (concrete playback is single-threaded in Kani: one process per harness,
+        # cheapest failing harnesses first, at most 6 -- the others are still reported, without an input)
+        order = sorted(failed, key=lambda h: res[h]['time'] or 1e9)
+        chosen = order[:6]
+
+        def pb_one(h):
+            try:
+                r2, _, _ = kani.run_kani(crate, [h], jobs=1, timeout=1800, playback=True)
+                return h, (r2.get(h) or {}).get('playback') or []
+            except Inconclusive:
+                return h, []
+        pbs = {}
+        with ThreadPoolExecutor(max_workers=6) as ex:
+            for h, pb in ex.map(pb_one, chosen):
+                pbs[h] = pb
         for h in failed:
-            pb = (res2.get(h) or {}).get('playback') or []
-            out['failures'].append({'harness': h, 'failed_checks': res[h]['failed'], 'playback': pb, 'raw': res[h]['raw'][-3000:]})
+            out['failures'].append({'harness': h, 'failed_checks': res[h]['failed'], 'playback': pbs.get(h, []),
+                                    'playback_attempted': h in chosen, 'raw': res[h]['raw'][-3000:]})
     return out
 
 
